@@ -251,7 +251,8 @@ pub fn generate(ctx: &mut GenCtx) {
     emit_t(ctx, "corpus", &[
         xsd("2024-01-02T00:00:00+14:00", "dateTime"), xsd("2024-01-01T11:00:00Z", "dateTime"), xsd("2024-01-01T12:00:00", "dateTime"),
     ]);
-    // dateTime lexical forms on which `XsdDateTime::new` unwraps a failed integer parse
+    // dateTime lexical forms on which `XsdDateTime::new` used to unwrap a failed integer parse (fixed in 9f7e0fe:
+    // they are now ill-formed dateTimes, compared by term order); a regression shows up as FAIL.panic
     emit_t(ctx, "corpus", &[xsd("99999999999-01-01T00:00:00", "dateTime"), xsd("2024-01-01T00:00:00", "dateTime")]);
     emit_t(ctx, "corpus", &[xsd("2147483648-01-01T00:00:00Z", "dateTime"), xsd("2147483647-01-01T00:00:00Z", "dateTime"), i("1")]);
     emit_t(ctx, "corpus", &[xsd("\u{0662}\u{0660}\u{0662}\u{0664}-01-01T00:00:00", "dateTime"), xsd("2024-01-01T00:00:00", "dateTime")]);
